@@ -1006,6 +1006,9 @@ static Token *preprocess2(Token *tok) {
     error_tok(tok, "invalid preprocessor directive");
   }
 
+  // The EOF token takes part in diagnostics too.
+  tok->line_delta = tok->file->line_delta;
+  tok->filename = tok->file->display_name;
   cur->next = tok;
   return head.next;
 }
